@@ -83,7 +83,15 @@ def run(ctx):
         prove(ctx, 'C08-4.dynbrake', k + '.dyn_brake>=0', an, 'ge0', sv.post('pwr_mech_dyn_brake'), facts=facts, assume=ASSUME)
         prove(ctx, 'C08-4.dynbrake', k + '.dyn_brake=0 unless braking', an, 'eq', sv.post('pwr_mech_dyn_brake'), 0, facts=[req.ge(0)] + facts,
               assume=ASSUME, note='[req >= 0]')
-        for en in ('energy_loss', 'energy_mech_dyn_brake'):
+        # every other dynamic-braking power the state reports (the electrical side): same two clauses, and it is what the
+        # mechanical dynamic-braking power becomes after the drivetrain's efficiency (never more than went in)
+        dyn_p = [f for f in state_fields(ctx, 'ElectricDrivetrainState') if f.startswith('pwr_') and 'dyn_brake' in f and f != 'pwr_mech_dyn_brake']
+        dyn_e = [f for f in state_fields(ctx, 'ElectricDrivetrainState') if f.startswith('energy_') and 'dyn_brake' in f and f != 'energy_mech_dyn_brake']
+        for f_ in dyn_p:
+            prove(ctx, 'C08-4.dynbrake', k + '.%s>=0' % f_, an, 'ge0', sv.post(f_), facts=facts, assume=ASSUME)
+            prove(ctx, 'C08-4.dynbrake', k + '.%s=0 unless braking' % f_, an, 'eq', sv.post(f_), 0, facts=[req.ge(0)] + facts, assume=ASSUME, note='[req >= 0]')
+            prove(ctx, 'C08-3.outin', k + '.%s<=mech dyn brake' % f_, an, 'le', sv.post(f_), sv.post('pwr_mech_dyn_brake'), facts=facts, assume=ASSUME)
+        for en in ['energy_loss', 'energy_mech_dyn_brake'] + dyn_e:
             prove(ctx, 'C08-5.monotone', k + '.' + en, an, 'ge0', sv.post(en) - sv.pre(en), facts=facts, assume=ASSUME)
     # ------------------------------------------------------------ ReversibleEnergyStorage
     for b in discovered_writers(ctx, 'ReversibleEnergyStorageState', ['pwr_out_chemical', 'pwr_loss']):
@@ -126,6 +134,14 @@ def run(ctx):
 
     # ------------------------------------------------------------ interpolation stays in the map's range
     interp_rules(ctx)
+
+
+def state_fields(ctx, tname):
+    out = []
+    for td in ctx.prog.types.get(tname, []):
+        if not td.test:
+            out = [f['name'] for f in td.fields if f.get('name')]
+    return out
 
 
 def _resimplify_all(an, t):
